@@ -158,7 +158,7 @@ def extract_state(model, it_facts, fi, self_obj, env, schema, mro_fn, max_len=40
 
 # ------------------------------------------------------------------------------------------------ building real objects
 def build(desc):
-    modname = desc["function"].split(":")[0]
+    modname = desc["function"].split("#")[0].split(":")[0]
     mod = importlib.import_module("atomica." + modname)
     objs = {}
     for oid, o in desc["objects"].items():
@@ -301,7 +301,7 @@ def run_replay(desc, contract, clause_name=None):
         objs, self_obj, args = build(desc)
     except Exception as e:
         return dict(out, verdict="error", detail="cannot build objects: %s: %s" % (type(e).__name__, e))
-    modname, rest = desc["function"].split(":")
+    modname, rest = desc["function"].split("#")[0].split(":")
     mod = importlib.import_module("atomica." + modname)
     env = dict(args)
     if self_obj is not None:
